@@ -155,6 +155,93 @@ class _DynInstance:
         return bytes(self._cls.size())
 
 
+class DynArrayType:
+    """`Struct * n`: a ctypes array type of structures created while a function runs"""
+    _nqsa_model = True
+
+    def __init__(self, ev, elem, n):
+        if not isinstance(n, int) or isinstance(n, bool) or n < 0:
+            raise EvalRaise("ValueError" if isinstance(n, int) else "TypeError", f"array length {n!r}")
+        self._ev, self._elem, self._n = ev, elem, n
+
+    def __call__(self, *items):
+        if len(items) > self._n:
+            raise EvalRaise("IndexError", "invalid index")
+        from . import cmodel
+        vals = list(items) + [cmodel.new_struct(self._ev, self._elem, lambda k_: Obj(k_, {})) for _ in range(self._n - len(items))]
+        for v in vals:
+            if not (isinstance(v, Obj) and v.cls is not None and self._elem in self._ev.repo.mro(v.cls)):
+                raise EvalRaise("TypeError", f"expected {self._elem.name} instance, got {type(v).__name__}")
+        return DynArrayInst(self, vals)
+
+    def from_buffer_copy(self, raw, offset=0):
+        from . import cmodel
+        size = cmodel.sizeof(self._ev, self._elem)
+        raw = bytes(raw)[offset:]
+        if len(raw) < size * self._n:
+            raise EvalRaise("ValueError", f"Buffer size too small ({len(raw)} instead of at least {size * self._n} bytes)")
+        return DynArrayInst(self, [cmodel.decode(self._ev, self._elem, raw[i * size:(i + 1) * size], lambda k_: Obj(k_, {})) for i in range(self._n)])
+
+
+class DynArrayInst:
+    _nqsa_model = True
+
+    def __init__(self, t, items):
+        self._t, self._items = t, items
+
+    def __bytes__(self):
+        from . import cmodel
+        return b"".join(cmodel.encode(self._t._ev, x) for x in self._items)
+
+    def __iter__(self):
+        return iter(self._items)
+
+    def __len__(self):
+        return len(self._items)
+
+    def __getitem__(self, i):
+        return self._items[i]
+
+    def __setitem__(self, i, v):
+        if not (isinstance(v, Obj) and v.cls is not None and self._t._elem in self._t._ev.repo.mro(v.cls)):
+            raise EvalRaise("TypeError", f"expected {self._t._elem.name} instance")
+        self._items[i] = v
+
+
+class StructModel:
+    """struct.Struct(fmt) - the standard library's own byte packing, which is pure arithmetic on the format"""
+    _nqsa_model = True
+
+    def __init__(self, fmt):
+        import struct
+        self._s = struct.Struct(fmt)
+        self.size, self.format = self._s.size, fmt
+
+    def pack(self, *a):
+        return self._s.pack(*a)
+
+    def unpack(self, raw):
+        import struct
+        try:
+            return self._s.unpack(bytes(raw))
+        except struct.error as ex_:
+            raise EvalRaise("error", str(ex_))
+
+    def unpack_from(self, raw, offset=0):
+        import struct
+        try:
+            return self._s.unpack_from(bytes(raw), offset)
+        except struct.error as ex_:
+            raise EvalRaise("error", str(ex_))
+
+    def iter_unpack(self, raw):
+        import struct
+        try:
+            return list(self._s.iter_unpack(bytes(raw)))
+        except struct.error as ex_:
+            raise EvalRaise("error", str(ex_))
+
+
 def _live(seq):
     """iterate a list by position, looking at the live object each time (what a Python `for` does)"""
     i = 0
@@ -854,6 +941,8 @@ class Interp:
         return a == b
 
     def binop(self, op, a, b, node):
+        if isinstance(op, ast.Mult) and isinstance(a, tuple) and len(a) == 2 and a[0] == "class" and self.ev.is_struct(a[1]) and getattr(self.sc, "ctypes_model", False):
+            return DynArrayType(self.ev, a[1], b)  # Struct * n
         if isinstance(op, ast.Mult) and isinstance(a, tuple) and len(a) == 2 and a[0] == "external" and a[1].split(".")[-1] in CTYPES_SCALARS and isinstance(b, int):
             return CArray(CTYPES_SCALARS[a[1].split(".")[-1]], b)  # ctypes.c_uint8 * n
         try:
@@ -1352,6 +1441,8 @@ class Interp:
                             return Obj(None, {"value": cmodel.wrap(args[0] if args else 0, 8 * t_.size, t_.signed), "_ctype": t_}, "cscalar")
                     except cmodel.CTypeError as ex_:
                         raise EvalRaise("TypeError", str(ex_))
+                if name == "struct.Struct" and len(args) == 1 and isinstance(args[0], str):
+                    return StructModel(args[0])
                 if name == "functools.partial" and args:
                     return ("partial", args[0], list(args[1:]), dict(kwargs))
                 if name == "itertools.chain":
